@@ -283,7 +283,70 @@ def _r2_r3(run, f, r, ev=None):
         fmt_dep = "format" in kwd and kwd["format"] != sym.NONE
         run.holds("C10.R3", f, c, "lock key = tile_path(pos%s) + literal: a function of the pyramid configuration and the tile only" % (
             ", format=..." if fmt_dep else ""), key=s[:160])
+        _config_fixed_at_construction(run, f, c)
     return key
+
+
+def _config_fixed_at_construction(run, f, c):
+    """... and that configuration is the same in every process that shares the pyramid: each attribute the tile path (hence the lock
+    path) reads is stored by the constructor only and is not a property computed on demand.  A value guessed lazily from the
+    directory (or reassigned later) can differ between two forked workers, which then guard one tile with two lock files."""
+    import ast as _ast
+    project = run.project
+    cls_q = P + ".PyramidIO"
+    methods = {g.name: g for g in project.functions_in(P) if g.cls is not None and g.cls.name == "PyramidIO" and g.qual.startswith(cls_q + ".")}
+    if "tile_path" not in methods:
+        return
+    seen, todo, attrs = set(), ["tile_path"], {}
+    upd = methods.get("update_image")
+    while todo:
+        m = todo.pop()
+        if m in seen or m not in methods:
+            continue
+        seen.add(m)
+        for x in _ast.walk(methods[m].node):
+            if isinstance(x, _ast.Attribute) and isinstance(x.value, _ast.Name) and x.value.id == "self":
+                if x.attr in methods and not isinstance(x.ctx, _ast.Store):
+                    todo.append(x.attr)
+                    decos = [dotted(d) or "" for d in methods[x.attr].node.decorator_list]
+                    if any(d.split(".")[-1] in ("property", "cached_property") for d in decos):
+                        attrs.setdefault(x.attr, x)
+                elif isinstance(x.ctx, _ast.Load):
+                    attrs.setdefault(x.attr, x)
+    # what update_image itself feeds into the path (format or self._default_format)
+    if upd is not None:
+        for x in _ast.walk(upd.node):
+            if isinstance(x, _ast.Attribute) and isinstance(x.value, _ast.Name) and x.value.id == "self" and isinstance(x.ctx, _ast.Load) and x.attr.startswith("_") \
+                    and x.attr not in methods:
+                attrs.setdefault(x.attr, x)
+            if isinstance(x, _ast.Attribute) and isinstance(x.value, _ast.Name) and x.value.id == "self" and x.attr in methods:
+                decos = [dotted(d) or "" for d in methods[x.attr].node.decorator_list]
+                if any(d.split(".")[-1] in ("property", "cached_property") for d in decos):
+                    attrs.setdefault(x.attr, x)
+    bad = []
+    for a, node in sorted(attrs.items()):
+        if a in methods:
+            decos = [dotted(d) or "" for d in methods[a].node.decorator_list]
+            if any(d.split(".")[-1] in ("property", "cached_property") for d in decos):
+                body_reads_fs = any(isinstance(y, _ast.Call) and (dotted(y.func) or "").split(".")[0] in ("os", "glob") or
+                                    (isinstance(y, _ast.Call) and isinstance(y.func, _ast.Attribute) and y.func.attr.startswith("_guess")) for y in _ast.walk(methods[a].node))
+                stores = [y for y in _ast.walk(methods[a].node) if isinstance(y, _ast.Attribute) and isinstance(y.ctx, _ast.Store)]
+                if body_reads_fs or stores:
+                    bad.append((a, methods[a].node, "is a property computed on demand (it %s)" % ("reads the directory" if body_reads_fs else "fills in a field on first use")))
+            continue
+        writers = []
+        for mname, g in methods.items():
+            for y in _ast.walk(g.node):
+                if isinstance(y, _ast.Attribute) and isinstance(y.ctx, _ast.Store) and isinstance(y.value, _ast.Name) and y.value.id == "self" and y.attr == a and mname != "__init__":
+                    writers.append((mname, y))
+        if writers:
+            bad.append((a, writers[0][1], "is reassigned after construction (in %s)" % writers[0][0]))
+    if bad:
+        a, node, why = bad[0]
+        run.violated("C10.R3", f, node, "the tile path - hence the lock path - reads self.%s, which %s: two processes sharing the pyramid can compute different lock files "
+                     "for one tile and update it at the same time" % (a, why), kind="lock-key-config-not-fixed")
+    else:
+        run.holds("C10.R3", f, c, "every attribute the tile / lock path reads (%s) is stored by the constructor only" % ", ".join(sorted(x for x in attrs if x not in methods))[:120])
 
 
 def lock_key_term(project):
